@@ -1,13 +1,12 @@
 \* generation (C16, thorough, exhaustive): every mutation (all operators, punctuator and word
-\* replacements) of all five seeds and of every valid structure with up to 3 nodes over
-\* @outer/@inner/plain for/if/@shared/@exclusive/use
+\* replacements) of all five seeds and of the minimal valid structure fo{fi}
 SPECIFICATION Spec
 CONSTANTS
-  MaxNodes = 3
-  MaxDepth = 3
-  Kinds = {"fo","fi","fp","if","us","sh","ex"}
+  MaxNodes = 2
+  MaxDepth = 2
+  Kinds = {"fo","fi"}
   GoodH = {"lt"}
-  MaxDecor = 1
+  MaxDecor = 0
   DefaultHdr = "lt"
   Seeds <- MCSeeds
   SeedIdx = {1,2,3,4,5}
